@@ -26,8 +26,8 @@ ASSUMPTIONS = [
     'chemistry\'s active/inactive indexing), validity of the mixture itself is C10',
     'the product rule is asserted for the transmission model (third return value = per-layer transmittance)',
 ]
-_Q = {'compose': 45, 'order': 16, 'abundance': 16, 'emission': 12}
-_T = {'compose': 700, 'order': 250, 'abundance': 250, 'emission': 200}
+_Q = {'compose': 45, 'order': 16, 'abundance': 16, 'emission': 12, 'live': 20}
+_T = {'compose': 700, 'order': 250, 'abundance': 250, 'emission': 200, 'live': 300}
 BUDGET = {
     'quick': [dict(name='boundscheck', env={'NUMBA_BOUNDSCHECK': '1'}, shards=4, cases=_Q)],
     'thorough': [dict(name='boundscheck', env={'NUMBA_BOUNDSCHECK': '1'}, shards=16, cases=_T)],
@@ -37,7 +37,8 @@ REQUIRED = dict(monitors=['sigma-is-sum-of-components', 'component-is-xsec-times
                           'order-independent', 'zero-abundance-changes-nothing', 'component-proportional-to-abundance',
                           'contribution-list-restored', 'store-contributions-equal-model-contrib'],
                 classes=['contrib:CIA', 'contrib:Rayleigh', 'contrib:SimpleClouds', 'contrib:FlatMie', 'contrib:LeeMie',
-                         'contrib:HydrogenIon', 'model:emission', 'early-exit-observed', 'species>=2', 'restricted-grid'])
+                         'contrib:HydrogenIon', 'model:emission', 'early-exit-observed', 'species>=2', 'restricted-grid',
+                         'live:starts-at-zero', 'live:write-from-zero', 'live:write-to-zero', 'live:write-rescale'])
 _rec = {'yields': {}, 'sigma': {}}
 CUT = base.CUT
 
@@ -377,6 +378,71 @@ def wl_abundance(ctx, rng, kind='transmission'):
     ctx.sig('abundance', kind, spec['nlayers'], spec['magnitude'], victim, round(spec['planet_mass'], 6))
 
 
+def wl_live(ctx, rng):
+    """One model object, as in a retrieval or a parameter sweep: abundances are written through the fitting parameters
+    (model['N2'] = x; from exactly zero upwards, back to zero, rescaled) and the model is evaluated again WITHOUT a
+    rebuild.  After every write the recorded components are judged by the statement's algebra and the whole evaluation
+    (every contribution's summed opacity, the names and values of its components, per-layer transmittance, depth) is
+    compared with a freshly built model of the same parameters."""
+    spec = make_case(rng, n_active=int(rng.integers(1, 4)), hion=False)
+    spec['gases'] = [{'kind': 'constant', 'mol': g['mol'], 'mix': float(10 ** rng.uniform(-9, -2))} for g in spec['gases']]
+    names = [c if isinstance(c, str) else c['name'] for c in spec['contributions']]
+    if 'Rayleigh' not in names and rng.random() < 0.7:
+        spec['contributions'] = list(spec['contributions']) + ['Rayleigh']
+    if not spec['gases']:
+        return
+    victim = spec['gases'][int(rng.integers(0, len(spec['gases'])))]['mol']
+    start_zero = bool(rng.random() < 0.6)
+    if start_zero:
+        spec['gases'] = [dict(g, mix=0.0) if g['mol'] == victim else g for g in spec['gases']]
+        ctx.observe('live:starts-at-zero')
+    observe_case(ctx, spec, 'transmission')
+    ctx.feature(victim=victim, start_zero=start_zero)
+    model, contribs, ops, cias = realise(spec)
+    snap = base.run_model(ctx, model)
+    if snap is None:
+        return
+    steps = []
+    for rnd in range(int(rng.integers(1, 4))):
+        cur = [g['mix'] for g in spec['gases'] if g['mol'] == victim][0]
+        if cur == 0.0 or rng.random() < 0.7:
+            v = float(10 ** rng.uniform(-7, -1.5))
+        else:
+            v = 0.0
+        steps.append(v)
+        model[victim] = v
+        spec = dict(spec, gases=[dict(g, mix=v) if g['mol'] == victim else g for g in spec['gases']])
+        live = base.run_model(ctx, model, build=False)
+        if live is None:
+            return
+        wn = live['wn']
+        judge_components(ctx, model, contribs, ops, cias, spec, wn)
+        base.oracle(ctx, live, spec)
+        live_rec = [(type(c).__name__, np.array(_rec['sigma'][id(c)][0]), [(n, a.copy()) for n, a in _rec['sigma'][id(c)][1]])
+                    for c in contribs if id(c) in _rec['sigma']]
+        m2, c2, ops2, cias2 = realise(spec)
+        fresh = base.run_model(ctx, m2)
+        if fresh is None:
+            return
+        wit = dict(victim=victim, written=list(steps), round=rnd)
+        ctx.close('live-equals-fresh:depth', live['depth'], fresh['depth'], 1e-12, **wit)
+        ctx.close('live-equals-fresh:transmittance', live['ret_trans'], fresh['ret_trans'], 1e-12, atol=1e-300, **wit)
+        fresh_rec = [(type(c).__name__, np.array(_rec['sigma'][id(c)][0]), [(n, a.copy()) for n, a in _rec['sigma'][id(c)][1]])
+                     for c in c2 if id(c) in _rec['sigma']]
+        ok = ctx.check('live-equals-fresh:contributions', [r[0] for r in live_rec] == [r[0] for r in fresh_rec],
+                       live=[r[0] for r in live_rec], fresh=[r[0] for r in fresh_rec], **wit)
+        if ok:
+            for (k1, s1, comps1), (k2, s2, comps2) in zip(live_rec, fresh_rec):
+                ctx.close('live-equals-fresh:sigma', s1, s2, 1e-12, contrib=k1, **wit)
+                same = ctx.check('live-equals-fresh:component-names', [n for n, _ in comps1] == [n for n, _ in comps2],
+                                 contrib=k1, live=[n for n, _ in comps1], fresh=[n for n, _ in comps2], **wit)
+                if same:
+                    for (n1, a1), (n2, a2) in zip(comps1, comps2):
+                        ctx.close('live-equals-fresh:component', a1, a2, 1e-12, contrib=k1, component=n1, **wit)
+        ctx.observe('live:write-%s' % ('to-zero' if v == 0.0 else ('from-zero' if cur == 0.0 else 'rescale')))
+    ctx.sig('live', spec['nlayers'], spec['magnitude'], victim, tuple(steps), round(spec['planet_mass'], 6))
+
+
 def wl_emission(ctx, rng):
     """(a)(b)(e)(f) on the emission / direct-image models."""
     kind = ['emission', 'directimage'][rng.integers(0, 2)]
@@ -404,7 +470,7 @@ def wl_emission(ctx, rng):
             round(spec['planet_mass'], 6))
 
 
-WORKLOADS = {'compose': wl_compose, 'order': wl_order, 'abundance': wl_abundance, 'emission': wl_emission}
+WORKLOADS = {'compose': wl_compose, 'order': wl_order, 'abundance': wl_abundance, 'emission': wl_emission, 'live': wl_live}
 
 LEVEL_TEXT = ('Exploration by runtime monitoring: a generator tap copies every component a contribution yields at the moment '
               'it is yielded, taps on prepare/path_integral/contribute record the summed sigma, the per-layer '
